@@ -551,6 +551,10 @@ ADAPTORS = {
                                       "fnitem_result": [(0, (), ())]},
     "std::option::Option::<T>::inspect": {"f": 1, "params": {2: [(0, ())]}, "result": [(0, (), ())]},
     "std::option::Option::<T>::and_then": {"f": 1, "params": {2: [(0, ())]}, "result": [("ret", (), ())]},
+    # map_or(self, default, f) / map_or_else(self, default_fn, f): the closure sees the payload, the result is its result or the default
+    "std::option::Option::<T>::map_or": {"f": 2, "params": {2: [(0, ())]}, "result": [("ret", (), ()), (1, (), ())]},
+    "std::option::Option::<T>::map_or_else": {"f": 2, "params": {2: [(0, ())]}, "result": [("ret", (), ())]},
+    "std::option::Option::<T>::is_some_and": {"f": 1, "params": {2: [(0, ())]}, "result": [("ret", (), ())]},
     "std::option::Option::<T>::filter": {"f": 1, "params": {2: [(0, ())]}, "result": [(0, (), ())]},
     "std::task::Poll::<T>::map": {"f": 1, "params": {2: [(0, ())]}, "result": [("ret", (), ())],
                                   "fnitem_result": [(0, (), ())]},
@@ -638,6 +642,7 @@ class Flow:
     context_sensitive_calls = True
     merge_call_targets = frozenset()
     alloc_wrappers = {}
+    relabel_alloc_fns = frozenset()
 
     def __init__(self, fb):
         self.fb = fb
@@ -893,6 +898,13 @@ class Flow:
                 out = self.instantiate_summary(body, t, target, self._q(cb, 0, rest, base_mode + "@" + target), mode)
             else:
                 out = self._q(cb, 0, rest, mode)
+            if self.relabel_alloc_fns and cb.kind == "fn":
+                # an allocation-like call made directly in a private helper on (part of) what the helper is given
+                # (`DataAccess::of(f)` calling `f.borrows()`): per call site of the helper it is a value of its own
+                sg_ = self.fb.fns.get(target) or {}
+                if not self.externally_callable(sg_):
+                    out = {self._relabel_alloc(x, body, bb, target, cb) if (x.kind == "alloc" and x[1] == target and x[4] in self.relabel_alloc_fns) else x
+                           for x in out}
             if target in self.alloc_wrappers:
                 # a private constructor that only wraps one allocation (e.g. `FnIdChannel::new(cap)` around `mpsc::channel(cap)`):
                 # each of its call sites is an allocation site of its own
@@ -948,6 +960,22 @@ class Flow:
             for a in args:
                 out |= self._q_operand(body, a, (), mode)
         return out
+
+    def _relabel_alloc(self, x, body, bb, target, cb):
+        """the allocation-like call `x` made inside helper `target` on one of its parameters, seen from the call of the helper at
+        (body, bb): an allocation of its own there, tagged with the helper parameter it was made on"""
+        try:
+            term = cb.blocks[x[2]]["term"]
+            prev = [p for p in x[3] if isinstance(p, str) and p.startswith("@arg")]
+            ai = int(prev[-1][4:]) - 1 if prev else 0
+            srcs = self._q_operand(cb, term["args"][ai], (), "prov@" + target)
+        except Exception:
+            return x
+        ks = {s_[2] for s_ in srcs if s_.kind == "param" and s_[1] == target}
+        if len(ks) != 1 or any(s_.kind != "param" for s_ in srcs):
+            return x
+        path = tuple(p for p in x[3] if not (isinstance(p, str) and p.startswith("@arg"))) + ("@arg%d" % list(ks)[0],)
+        return Src(("alloc", body.id, bb, path, x[4]))
 
     def local_stream_impl(self, adt):
         """body of `<adt as Stream>::poll_next` when the crate implements Stream for its own struct `adt`"""
